@@ -12,7 +12,7 @@ claimed = {
  "C10": ("exploration","sched","2-4 sessions x <= 4 statements from {CREATE TABLE / DROP TABLE incl. same names, INSERT VALUES, DELETE WHERE, SELECT count(*)} interleaved at statement, bind, pin, commit and DDL gates; oracles: no session or background task panics, no process abort, no deadlock (progress within 5 simulated seconds once gates are opened), existence of a total order of the acknowledged statements respecting session order that reproduces every SELECT result and the final state (histories that are only explained by statement-level snapshot isolation are classified separately), shutdown + reopen succeeds and shows the same state. Multi-threaded preemption inside a poll is not explored.","4"),
  "C12": ("exploration","hist","Seeded layout histories (several row-sets, DVs, compactions, reopen) with ORDER BY / LIMIT / OFFSET queries at query points, each checked against the engine's own unordered result: K-sorted, permutation, slice [m..m+n] on K, unordered LIMIT count and containment.","4"),
  "C04": ("fault_enumeration","crash","A seeded history is executed once on the real on-disk engine with every mutating syscall journalled at the libc boundary (so a removed or reordered fsync/write/rename is seen as the kernel would see it); crash images are then derived from the journal for crash indexes x torn lengths of the write in flight x durability model (everything issued / un-synced file tails cut or zero-filled / directory entries and renames not covered by an fsync of their directory lost) x one-level crash during recovery; each image is recovered with Database::new_on_disk and must equal the model of the acknowledged prefix with or without the statement in flight, accept new statements (insert, full or one-row delete, create) whose effect must survive one more reopen, and a second recovery must agree. Thorough enumerates every index and every byte of manifest writes.","4"),
- "C15": ("fault_enumeration","fault","For each statement under test (filtered scans, aggregates, ORDER BY/LIMIT, joins, INSERT VALUES, INSERT..SELECT, DELETE) a fault-free execution on a twin database records rows and per-operator item counts; then (operator, item index, error|panic) faults are injected through the guarded hook in the per-operator output loop, one per execution, and I/O faults (EIO, ENOSPC, EINTR, short transfer) on the n-th syscall of a given class and file; reads are faulted on a cold copy. A statement in which a fault fired must not return Ok with different rows; a failed INSERT/DELETE must leave its table unchanged in the running instance and in a reopened copy of the directory; an acknowledged one must be durable.","4"),
+ "C15": ("fault_enumeration","fault","For each statement under test (filtered scans, aggregates, ORDER BY/LIMIT, joins, INSERT VALUES, INSERT..SELECT, DELETE) a fault-free execution on a twin database records rows and per-operator item counts; then (operator, item index, error|panic) faults are injected through the guarded hook in the per-operator output loop, one per execution, and I/O faults (EIO, ENOSPC, EINTR, short transfer) on the n-th syscall of a given class and file; reads are faulted on a cold copy. One run in forty is a COPY FROM scenario (well-formed file / a field that fails to parse / a field whose parsing panics the reader thread, at the first, last, a chunk-edge or a random line): Err and an unchanged table, or Ok and every line; that run uses the real blocking pool (the reader blocks on the runtime), its verdict does not depend on thread timing. A statement in which a fault fired must not return Ok with different rows; a failed INSERT/DELETE must leave its table unchanged in the running instance and in a reopened copy of the directory; an acknowledged one must be durable.","4"),
  "C18": ("fault_enumeration","corrupt","A seeded database is built with CRC32 checksums (default_for_cli), then single at-rest corruptions of every .col/.idx file are enumerated (bit flip, byte overwrite, zero-filled sector, truncation at first/last/middle/trailer/footer/seeded positions) x read order (corrupt then open; open, cache, corrupt; open, corrupt, read; open, read and verify every block, corrupt, drop the block cache through a guarded hook = cache pressure, read again) x optional compaction pass over damaged data; with the compaction variant a row is inserted into every table first so that the damaged row-set is really merged; every table is read three times by SELECT *, then by count(*) and two single-column selects, and each read must fail or return exactly the original rows. A same-sized sibling file's content is one more corruption kind in the runs that do not steer around known findings.","4"),
  "C13": ("exploration","hist","Seeded layout histories on tables with a primary key of any type at any position, tiny blocks, with key-range queries at query points; each is compared with the same query under PRAGMA disable_optimizer (no pushdown), with the model, and at storage level scan(range) vs scan()+filter.","4"),
 }
